@@ -18,6 +18,7 @@ import (
 // WriteRec is one Write call as the kernel saw it.
 type WriteRec struct {
 	Handle int    // sequence number of the open handle
+	File   int    // identity of the file (an inode number may be reused after a removal; this is not)
 	Ino    uint64 // inode written to
 	Data   []byte // bytes that were actually appended
 	Asked  int    // bytes the caller passed
@@ -29,6 +30,7 @@ type WriteRec struct {
 // OpenRec is one successful open.
 type OpenRec struct {
 	Handle  int
+	File    int
 	Ino     uint64
 	Path    string
 	Created bool
@@ -55,6 +57,42 @@ type FSState struct {
 	dead    bool
 	Faults  map[string]int // fired faults by kind (scheduler goroutine only)
 	nOpen   int
+	idents  []fileIdent
+	nFiles  int
+}
+
+type fileIdent struct {
+	ino uint64
+	id  int
+}
+
+// fileID returns the identity of the file behind ino: a new one if the open
+// created the file (or the inode has not been seen), else the latest one.
+//
+//go:norace
+func (f *FSState) fileID(ino uint64, created bool) int {
+	if !created {
+		for i := len(f.idents) - 1; i >= 0; i-- {
+			if f.idents[i].ino == ino {
+				return f.idents[i].id
+			}
+		}
+	}
+	f.nFiles++
+	f.idents = append(f.idents, fileIdent{ino, f.nFiles})
+	return f.nFiles
+}
+
+// FileOfIno returns the identity of the file that currently has inode ino (0 if unknown).
+//
+//go:norace
+func (f *FSState) FileOfIno(ino uint64) int {
+	for i := len(f.idents) - 1; i >= 0; i-- {
+		if f.idents[i].ino == ino {
+			return f.idents[i].id
+		}
+	}
+	return 0
 }
 
 func newFSState() *FSState { return &FSState{Faults: map[string]int{}} }
@@ -76,6 +114,7 @@ type File struct {
 	*os.File
 	handle int
 	ino    uint64
+	file   int
 	closed bool
 }
 
@@ -155,8 +194,9 @@ func OSOpenFile(name string, flag int, perm os.FileMode) (*File, error) {
 		if fi, e := f.Stat(); e == nil {
 			w.ino = inoOf(fi)
 		}
+		w.file = s.FS.fileID(w.ino, created)
 		s.FS.handles = append(s.FS.handles, w)
-		s.FS.Opens = append(s.FS.Opens, OpenRec{w.handle, w.ino, name, created, s.Step, t.ID})
+		s.FS.Opens = append(s.FS.Opens, OpenRec{w.handle, w.file, w.ino, name, created, s.Step, t.ID})
 		recOp("open", name, "", 0)
 		fsAfter("open")
 	}
@@ -175,7 +215,7 @@ func (f *File) Write(p []byte) (int, error) {
 		return 0, pathErr("write", f.File.Name(), errno)
 	}
 	s := cur
-	rec := WriteRec{Handle: f.handle, Ino: f.ino, Asked: len(p), Task: t.ID, Step: s.Step}
+	rec := WriteRec{Handle: f.handle, File: f.file, Ino: f.ino, Asked: len(p), Task: t.ID, Step: s.Step}
 	if errno != 0 && short < 0 {
 		rec.Errno = errno
 		s.FS.Writes = append(s.FS.Writes, rec)
